@@ -204,7 +204,10 @@ BranchEvent(s, b) ==
     [] p.ph = "o" -> {E("opnd", id, b, NoV, <<>>)}
     [] p.ph = "e" -> IF ItemAt(s, b).op = "force" THEN {E("init", P.branches[b + 1].iid, b, NoV, <<>>)}
                      ELSE {E("enter", id, b, p.v, <<>>)}
+    \* (a detached task that reaches its gate after the caller got its result may find it open already or not yet)
     [] p.ph = "g" -> {E("arrive", id, b, NoV, <<>>)}
+                     \cup (IF s.ph = "ended" /\ p.i > 0
+                           THEN {E("exit", id, b, After(P, ItemAt(s, b).op, ActOf(s.plan, "f", id), p.v, id, b), <<>>)} ELSE {})
     [] p.ph = "w" -> {}
     [] p.ph = "x" ->
          IF Gated(s, id) /\ ~Rel(s, id) /\ ~(IsAsync(P) /\ ~s.arrived[b]) THEN {}
@@ -459,7 +462,7 @@ ApplyBranch(s0, e) ==
          ELSE SetPc(s, b, Norm(s, b, p.i, "e", p.v))
     [] e.ev = "enter" ->
          IF IsAsync(P) /\ ActOf(s.plan, "f", e.id) = "panic" THEN [s EXCEPT !.pp = "f", !.pb = b]
-         ELSE IF Gated(s, e.id) /\ (IsAsync(P) => ~Rel(s, e.id)) THEN SetPc(s, b, [p EXCEPT !.ph = "g"])
+         ELSE IF Gated(s, e.id) /\ (IsAsync(P) => e.id \notin s.released) THEN SetPc(s, b, [p EXCEPT !.ph = "g"])
          ELSE SetPc(s, b, [p EXCEPT !.ph = "x"])
     [] e.ev = "arrive" ->
          [SetPc(s, b, [p EXCEPT !.ph = IF p.i = 0 THEN "w" ELSE "x"]) EXCEPT !.arrived[b] = TRUE]
@@ -541,7 +544,8 @@ Apply(s, e) ==
       s2 == IF e.ev = "panic" /\ e.b # -1 THEN [s1 EXCEPT !.pp = ""] ELSE s1
       s3 == Settle(s2)
   IN  \* tasks: a branch task that completes outside a root poll must wake the root
-      IF IsTasks(s.prog) /\ ~s3.inpoll /\ s3.ended # s.ended /\ s3.k = s.k
+      \* (so must one that panics: its handle completes with the panic, which the root then raises)
+      IF IsTasks(s.prog) /\ ~s3.inpoll /\ (s3.ended # s.ended \/ (s3.panicked /\ ~s.panicked /\ e.b >= 0)) /\ s3.k = s.k
       THEN [s3 EXCEPT !.sinceWake = TRUE] ELSE s3
 
 \* environment: release gates (threads: one at a time; futures: a batch)
